@@ -4,5 +4,5 @@ P=$1; X=${2:-$1}
 mkdir -p /tmp/seedres
 for W in A B; do
   echo "=== $P $W verify"; python3 /verif/tools/seedverify.py /tmp/wt/$P $W 2>&1 | tail -1 | cut -c1-300
-  echo "=== $P $W eval"; python3 /verif/tools/seedeval.py /tmp/wt/$P/_seeded/$W/patch.diff $X --copy > /tmp/seedres/$P-4$W.txt 2>&1; tail -1 /tmp/seedres/$P-4$W.txt | cut -c1-500
+  echo "=== $P $W eval"; python3 /verif/tools/seedeval.py /tmp/wt/$P/_seeded/$W/patch.diff $X --copy > /tmp/seedres/$P-${TAG:-4}$W.txt 2>&1; tail -1 /tmp/seedres/$P-${TAG:-4}$W.txt | cut -c1-500
 done
